@@ -140,6 +140,7 @@ class H:
         self.depth = False
         self.no_sender_yields = False
         self.guard_yields = {cbid_of(g): g.get("yields", 0) for g in spec.get("guards", [])}
+        self.attr_guards = {cbid_of(g) for g in spec.get("guards", []) if g.get("kind") == "attr"}
 
     def frame_depth(self):
         f = sys._getframe(2)
@@ -408,6 +409,10 @@ def render(spec, *, cname=None, register=True):
         if g["prov"] in same:
             continue
         cid = cbid_of(g)
+        if g.get("kind") == "attr":
+            # a plain data attribute (None until a value is written on the object): read afresh at every evaluation
+            prov_ns.setdefault(g["prov"], {})[g["name"]] = None
+            continue
         fn = make_guard(cid, g.get("kind", "method"), g.get("async", False))
         _name(fn, g["name"], f"{cname}_{g['prov']}.{g['name']}")
         prov_ns.setdefault(g["prov"], {})[g["name"]] = fn
